@@ -1,4 +1,5 @@
 SPECIFICATION Spec
-CONSTANT Mutant = "kid_first_match"
+CONSTANTS Mutant = "kid_first_match"
+  Full = FALSE
 INVARIANTS InvTypes InvSignature InvUnsigned InvAlgKey InvAlgAllowed InvIssuer InvAudience InvScopes InvValidity InvKidUnique InvMerge InvRefines InvVerdict
 CHECK_DEADLOCK FALSE
